@@ -28,7 +28,7 @@ def run(chk: core.Check) -> None:
     chk.rule = (
         "histories of 1..8 operations over {body / meta / styles edit, add_file by path or file-like (repeated content), del_part (any optional part, pictures, "
         "manifest.rdf), image frame, merge_styles_from, lazy reads, clone (continue on the clone), save + reopen (continue on the reopened document)} from the "
-        "four templates and from samples opened by path / buffer / folder; every save is inspected. non-trivial = the history adds or deletes a part; distinct "
+        "four templates and from samples opened by path / buffer / folder, with saves in the middle after which the same object goes on; every save is inspected. non-trivial = the history adds or deletes a part; distinct "
         "by (origin, history). picture-merge family (zipfile/lxml oracle only): histories of 2..9 operations over {merge_styles_from a source whose styles "
         "reference packaged pictures (samples with master-page images / draw:fill-image, opened by path or buffer; documents of each type built with add_file + "
         "DrawFillImage / an image frame in a master page, live or saved + reopened; 1..2 sources per history, source object reused or reopened), del_part of a "
@@ -119,6 +119,21 @@ def one_history(chk, rng, s, tmp):
                 return
             s.doc = Document(io.BytesIO(data))
             chk.mirror.reopen(s)
+            continue
+        if r < 0.37:
+            # a save in the middle of the history, the SAME document object goes on (what a later save writes must not depend on
+            # what an earlier save did to the container: parts marked deleted, parts loaded, the manifest.rdf check)
+            s.log.append(["save, go on"])
+            chk.count("operation", "save, go on with the same object")
+            try:
+                data = pkg.save_zip_bytes(s.doc)
+            except Exception as e:  # noqa: BLE001
+                chk.fail({**case, "exception": repr(e), "clause": "save-raises"}, f"save raised {type(e).__name__}")
+                return
+            chk.case((s.name, repr(s.log)), nontrivial=nontriv)
+            chk.mirror.save(s, data, s.doc.container.default_manifest_rdf.encode("utf8"))
+            if not check_saved(chk, s, data, case):
+                return
             continue
         op = pkg.gen_op(rng, s)
         if op[0] not in C04_OPS and op[0] != "del_part":
